@@ -126,7 +126,7 @@ def run(eng, tier):
         ('exec-total-fractional', 'L', lambda e: isf(e, ('val', EQ(('fract', GROSS), I(0)), False))),
         ('bid-total-fractional', 'L', lambda e: isf(e, ('val', EQ(('fract', OGROSS), I(0)), False))),
         ('ask-pending', 'L', lambda e: isf(e, ('is', STATUS, 'PendingIssuerApproval'))),
-        ('id-not-canonical', 'L', lambda e: or_id(e, 'ask_id') or or_id(e, 'bid_id')),
+        ('id-not-canonical', 'L', lambda e: id_not_canonical_fact(e['fact'], M(V_, 'ask_id')) or id_not_canonical_fact(e['fact'], M(V_, 'bid_id'))),
         ('price-empty', 'L', lambda e: isf(e, ('val', ISEMPTY(PRICE), True))),
         ('size-below-1', 'L', lambda e: is_sign(e['fact'], SIZE, 'zero')),
         ('bid-fee-account-missing', 'L(fees payable)', lambda e: isf(e, ('is', F(CFG, 'bid_fee_info'), 'None'))),
